@@ -221,6 +221,17 @@ Section Calm.
       apply calm_read. intros [[|cv]|]; try apply Hmiss.
       destruct (N.eqb cv (cache_code v)); [apply IH | apply Hmiss].
     Qed.
+
+    Lemma calm_get_target : forall lay x, calm J (get_target lay c x).
+    Proof.
+      intros lay x. unfold get_target.
+      assert (Hmiss : forall v, calm J (Seq (Catch (store_cache lay c x v) (fun _ => Raise EVal)) (clean_item_cache lay c))).
+      { intro v. apply calm_seq; [|apply calm_clean_item_cache].
+        apply calm_catch; [apply calm_store_cache | intro e; apply calm_raise]. }
+      apply calm_read. intros [[|v]|]; try apply calm_ret.
+      apply calm_read. intros [[|cv]|]; try apply Hmiss.
+      destruct (N.eqb cv (cache_code v)); [apply calm_ret | apply Hmiss].
+    Qed.
   End Coll.
 
 End Calm.
